@@ -190,7 +190,35 @@ def h_cpp_weights(env, total):
 
 h_cpp_weights.replay_any = True
 
-HARNESSES = {"powtrace": h_powtrace, "hessenberg": h_hessenberg, "cpp_permanent": h_cpp_permanent, "cpp_weights": h_cpp_weights}
+
+def h_cpp_pfaffian(env, n, zeros=()):
+    """src/pfaffian.cpp pfaffian_cpp<double> (Parlett-Reid with partial pivoting) interpreted from clang's AST on a GENERIC real
+    skew-symmetric n x n matrix (optionally with structural zeros, which steer the pivot search into its rarely taken branches):
+    every pivot choice is a solver decision on |a| > |b| (compared as squares), every `element != 0` test forks, and on each
+    feasible path the returned value equals the sum over perfect matchings."""
+    prog = cc.program("pfaffian")
+    env.functions += cc.fn_refs(prog, "pfaffian_cpp<double> (clang-14 AST)")
+    env.stubs += ["Matrix handle of src/matrix.hpp = native model", "std::abs on reals: only compared, decided on squares", "reals stand in for doubles"]
+    zeros = {tuple(z) for z in zeros}
+    M = numpy.empty((n, n), dtype=object)
+    for i in range(n):
+        M[i, i] = 0
+        for j in range(i + 1, n):
+            v = 0 if (i, j) in zeros else env.real("a%d%d" % (i, j))
+            M[i, j] = v
+            M[j, i] = -v if not isinstance(v, int) else 0
+    want = cc.pfaffian_definition(M)
+    if env.mode == "sym":
+        got, ub = cc.interp_pfaffian(env, M.copy())
+        env.equal("pfaffian_cpp == sum over perfect matchings", got, want)
+        env.holds("no undefined behaviour in pfaffian_cpp", not ub)
+    else:
+        got, ub = cc.native_pfaffian(numpy.array(M, dtype=float))
+        env.equal("pfaffian_cpp == sum over perfect matchings", got if got is not None else float("nan"), want)
+        env.holds("no undefined behaviour in pfaffian_cpp", not ub)
+
+
+HARNESSES = {"powtrace": h_powtrace, "hessenberg": h_hessenberg, "cpp_permanent": h_cpp_permanent, "cpp_weights": h_cpp_weights, "cpp_pfaffian": h_cpp_pfaffian}
 
 
 def instances(tier):
@@ -198,9 +226,14 @@ def instances(tier):
     out += [("cpp_permanent", {"rows": list(r), "cols": list(c)}) for r, c in (((1, 1), (1, 1)), ((2, 1), (1, 2)), ((0, 2), (1, 1)), ((1, 1, 1), (1, 1, 1)), ((2, 0, 1), (1, 1, 1)), ((2, 2), (3, 1)), ((1, 2, 1), (2, 0, 2)), ((3, 2), (4, 1)), ((2, 2, 1), (1, 3, 1)))]
     out += [("cpp_permanent", {"rows": list(r), "cols": list(c), "kernel": "laplace"}) for r, c in (((1, 1), (2, 1)), ((2, 1), (2, 2)), ((1, 0, 1), (1, 1, 1)), ((2, 2), (3, 2)), ((0, 2, 1), (2, 1, 1)))]
     out += [("cpp_weights", {"total": 24}), ("cpp_weights", {"total": 40})]
+    out += [("cpp_pfaffian", {"n": 2}), ("cpp_pfaffian", {"n": 4}), ("cpp_pfaffian", {"n": 3}),
+            ("cpp_pfaffian", {"n": 4, "zeros": [[0, 1], [0, 2], [1, 3], [2, 3]]}),       # anti-diagonal pairing: the only pivot candidate is the last row
+            ("cpp_pfaffian", {"n": 4, "zeros": [[0, 1], [0, 2]]}), ("cpp_pfaffian", {"n": 4, "zeros": [[0, 1]]}),
+            ("cpp_pfaffian", {"n": 6, "zeros": [[0, 1], [0, 2], [0, 3], [0, 4], [1, 2], [1, 3], [1, 5], [2, 4], [2, 5], [3, 4], [3, 5]]})]   # nested pairing (0,5)(1,4)(2,3)
     if tier == "thorough":
         out += [("cpp_permanent", {"rows": list(r), "cols": list(c)}) for r, c in (((1, 1, 1, 1), (1, 1, 1, 1)), ((2, 1, 0, 2), (1, 1, 2, 1)), ((4, 2, 1), (2, 3, 2)))]
         out += [("cpp_weights", {"total": 48})]
+        out += [("cpp_pfaffian", {"n": 6, "zeros": [[0, 1], [0, 2], [0, 3], [1, 2], [2, 4], [3, 5]]}), ("cpp_pfaffian", {"n": 6, "zeros": [[0, 1], [0, 2], [0, 3], [0, 4]]})]
     if tier == "thorough":
         out += [("powtrace", {"dim": 5, "pow_max": 7}), ("powtrace", {"dim": 6, "pow_max": 6})]
     if tier == "thorough":
@@ -209,7 +242,9 @@ def instances(tier):
 
 
 EXPLANATION = (
-    "A sliver of C04: the power-trace stage of the Python (numba) hafnian executed from its source on symbolic matrices. For EVERY upper-Hessenberg complex matrix "
+    "PARTIAL. Native kernels from clang's AST of the current source (E-CX): permanent_cpp<double> and permanent_laplace_cpp<double> on a GENERIC complex matrix for listed multiplicity patterns and every "
+    "thread-count class equal the sum over permutations without undefined behaviour; the Gray-step update of the integer binomial weight stays within its C++ type and re-establishes its invariant for ALL "
+    "multiplicities of two counted rows up to the stated total; pfaffian_cpp<double> on a generic real skew matrix equals the sum over perfect matchings on every pivoting path. Plus the power-trace stage of the hafnian: the power-trace stage of the Python (numba) hafnian executed from its source on symbolic matrices. For EVERY upper-Hessenberg complex matrix "
     "up to 4x4 (6x6 thorough) z3 decides that La Budde's characteristic-polynomial coefficients fed through the Newton-identity routine give tr(H^k) for all k up to "
     "pow_max, including pow_max > dim (Appendix-B recurrence). The Householder reduction in front of it is attempted for a generic 3x3 matrix."
 )
@@ -220,7 +255,9 @@ def run(rep, tier, seed, opts):
     if opts.get("only"):
         inst = [i for i in inst if opts["only"] in i[0] or opts["only"] in str(i[1])]
     rep.bounds = {"Hessenberg dim": "2..4 (6 thorough)", "powers": "up to 7",
-                  "outside": "all C++ kernels (permanent, permanent_laplace, torontonian, loop torontonian, pfaffian, jax_perm): no LLVM-IR engine was built and the extensions cannot be rebuilt here; "
+                  "native permanent": "multiplicity patterns with <= 5 photons on <= 3 modes (6 on 4 thorough), thread counts 1..1024; weight invariant for two counted rows with total <= 40 (48)",
+                  "pfaffian": "generic real skew matrices n = 2, 3, 4; 4x4 / 6x6 with structural zeros",
+                  "outside": "torontonian, loop torontonian, jax_perm, float32 instantiations; the prebuilt extension modules cannot be rebuilt here (claims are about the C++ source); "
                              "the subset enumeration / repeated-edge compression drivers of plain_hafnian.py and loop_hafnian.py, loop corrections, float32 overloads, strided inputs"}
     o = {"timeout_s": 60 if tier == "quick" else 300, "instance_timeout_s": 900, "seed": seed, "validation_points": 2, "path_budget": 400, "som_blowup": True}
     for r in core.run_instances(__name__, inst, o, jobs=opts.get("jobs")):
